@@ -70,3 +70,75 @@ Proof. intros l q q' H. exact (flip_variable_marks l q q' H). Qed.
 Theorem remove_variable_guard_generated : forall l q,
   in_discrete l q = gen_remove_variable_refuses_discrete -> remove_variable_py l q = (q, XValue).
 Proof. intros l q H. unfold remove_variable_py. cbn [gen_remove_variable_refuses_discrete] in H. rewrite H. reflexivity. Qed.
+
+(* ---------- exception classes and the weight / penalty table ---------- *)
+Definition exc_of (g : gen_exc) : exc := match g with GValue => XValue | GType => XType | GKey => XKey end.
+Definition pen_of (p : penalty) : gen_penalty := match p with PLin => GenLinear | PQuad => GenQuadratic end.
+
+Theorem unknown_variable_exception_generated : forall l q,
+  has_var l (q_vars q) = false -> in_discrete l q = false ->
+  remove_variable_py l q = (q, exc_of gen_exc_unknown_variable)
+  /\ fix_one l 0 q = (q, exc_of gen_exc_unknown_variable)
+  /\ flip l q = (q, exc_of gen_exc_unknown_variable).
+Proof.
+  intros l q H D. unfold remove_variable_py, fix_one, flip, has_var in *. rewrite D.
+  destruct (find_var l (q_vars q)); [discriminate|]. repeat split.
+Qed.
+
+Theorem remove_variable_discrete_exception_generated : forall l q,
+  in_discrete l q = true -> remove_variable_py l q = (q, exc_of gen_exc_remove_variable_discrete).
+Proof. intros l q H. unfold remove_variable_py. rewrite H. reflexivity. Qed.
+
+Theorem flip_not_binary_exception_generated : forall l q x,
+  find_var l (q_vars q) = Some x -> is_bin_or_spin (v_vt x) = false -> flip l q = (q, exc_of gen_exc_flip_not_binary).
+Proof. intros l q x H B. unfold flip. rewrite H. destruct (v_vt x); try discriminate; reflexivity. Qed.
+
+Theorem change_vartype_exception_generated : forall vt l q q' e,
+  change_vartype vt l q = (q', e) -> e = XNone \/ (q' = q /\ (e = exc_of gen_exc_unknown_variable \/ e = exc_of gen_exc_change_vartype_unsupported)).
+Proof.
+  intros vt l q q' e H. unfold change_vartype in H. destruct (find_var l (q_vars q)) as [x|].
+  - destruct (v_vt x); destruct vt; injection H as <- <-; auto.
+  - injection H as <- <-. right. split; [reflexivity|left; reflexivity].
+Qed.
+
+Theorem view_unknown_constraint_exception_generated : forall faith_op l q,
+  has_con l (q_cons q) = false ->
+  (exists v b, faith_op = VAddLinear (TCon l) v b) \/ (exists v b, faith_op = VSetLinear (TCon l) v b)
+  \/ (exists b, faith_op = VSetOffset (TCon l) b) \/ (exists v, faith_op = VRemoveVar (TCon l) v) ->
+  step q faith_op = (q, exc_of gen_exc_unknown_constraint_view).
+Proof.
+  intros o l q H [[v [b ->]]|[[v [b ->]]|[[b ->]|[v ->]]]]; cbn [step target_ok on_target]; rewrite H; reflexivity.
+Qed.
+
+Theorem duplicate_label_exception_generated : forall d s rhs l soft q,
+  has_con l (q_cons q) = true -> add_con_model d s rhs l soft q = (q, exc_of gen_exc_duplicate_constraint_label).
+Proof. intros d s rhs l soft q H. unfold add_con_model. rewrite H. reflexivity. Qed.
+
+(* the quadratic penalty is accepted exactly for the vartypes of the generated table *)
+Theorem penalty_table_generated : forall vt, is_bin_or_spin vt = gen_penalty_allowed GenQuadratic vt /\ gen_penalty_allowed GenLinear vt = true.
+Proof. intros vt. destruct vt; split; reflexivity. Qed.
+
+Theorem set_weight_generated : forall l w pen q k,
+  find_con l (q_cons q) = Some k ->
+  set_weight l w pen q =
+  if (gen_weight_must_be_positive && match w with Some x => Qc_leb x 0 | None => false end)
+     || negb (forallb (fun v => gen_penalty_allowed (pen_of pen) (vt_of (q_vars q) v)) (pvars (k_p k)))
+  then (q, exc_of gen_exc_weight)
+  else (upd_con l (fun k => con_set_soft k (match w with Some x => Some (x, pen) | None => None end)) q, XNone).
+Proof.
+  intros l w pen q k H. unfold set_weight. rewrite H. cbn [gen_weight_must_be_positive andb].
+  destruct (match w with Some x => Qc_leb x 0 | None => false end); cbn [orb]; [reflexivity|].
+  destruct pen; cbn [penalty_eqb pen_of andb].
+  - assert (E : forallb (fun v => gen_penalty_allowed GenLinear (vt_of (q_vars q) v)) (pvars (k_p k)) = true).
+    { apply forallb_forall. intros v _. destruct (vt_of (q_vars q) v); reflexivity. }
+    rewrite E. reflexivity.
+  - assert (E : forallb (fun v => gen_penalty_allowed GenQuadratic (vt_of (q_vars q) v)) (pvars (k_p k))
+                = forallb (fun v => is_bin_or_spin (vt_of (q_vars q) v)) (pvars (k_p k))).
+    { induction (pvars (k_p k)) as [|v r IH]; [reflexivity|]. cbn [forallb]. rewrite IH. destruct (vt_of (q_vars q) v); reflexivity. }
+    rewrite E. destruct (forallb (fun v => is_bin_or_spin (vt_of (q_vars q) v)) (pvars (k_p k))); reflexivity.
+Qed.
+
+(* add_constraint validates the weight before the model is touched *)
+Theorem add_constraint_weight_atomic_generated : forall q0 q k w pen,
+  Qc_leb w 0 = true -> append_con q0 q k (Some (w, pen)) = (q0, exc_of gen_exc_weight).
+Proof. intros q0 q k w pen H. unfold append_con. rewrite H. reflexivity. Qed.
